@@ -137,6 +137,7 @@ func factClasses(r *evid.Recorder, f Facts, v Verdict) {
 	cls("adjacent-strings", f.AdjacentStrings)
 	cls("message-literal", f.MsgLiterals)
 	cls("angle-literal", f.AngleLiterals)
+	cls("any-literal", f.AnyLiterals)
 	cls("array-literal", f.ArrayLiterals)
 	cls("duplicate-import", f.DupImports)
 	cls("repeated-file-option", f.RepeatedFileOpt)
